@@ -117,6 +117,9 @@ func init() {
 		Mutant{Prop: "C14", Name: "hash-field-tagged-omitempty", File: fJSON, Func: "",
 			Find: "\tDataID           \\[\\]byte\n", Repl: "\tDataID           []byte `json:\",omitempty\"`\n", Expect: []string{"C14.2"}},
 
+		Mutant{Prop: "C14", Name: "precommit-proof-encoded-without-key-hash", File: fCodec, Func: "MarshalCodec.MarshalPrecommitProof",
+			Find: `PubKeyHash: \[\]byte\(p\.PubKeyHash\),`, Repl: "PubKeyHash: nil,", Expect: []string{"C14.1"}},
+
 		// ---- C15
 		Mutant{Prop: "C15", Name: "data-id-not-hashed", File: fHash, Func: "SimpleHashScheme.Block",
 			Find: `\t\th\.DataID,\n\t\th\.PrevAppStateHash,\n`, Repl: "\t\th.PrevAppStateHash,\n\t\th.PrevAppStateHash,\n", Expect: []string{"C15.1"}},
